@@ -19,6 +19,10 @@ if sys.path[0] != REPO:
     sys.path.insert(0, REPO)
 
 
+# depth multiplier of the sampled parts of the thorough tier (the quick tier is not affected)
+DEEP = int(__import__("os").environ.get("VERIF_THOROUGH_SCALE", "8"))
+
+
 class Viol(Exception):
     """A run-time contract (taken from a property statement) failed on the real code."""
 
